@@ -164,11 +164,9 @@ def w4_small_curves(rec, s, quick):
             s.P, s.N, s.A, s.B, s.Gx, s.Gy, s.G = p, n, A_, B_, g[0][0], g[1][0], (g[0][0], g[1][0])
             ctx = mon.Ctx(p, A_, B_, n, g)
             mon.set_ctx(ctx)
-            # substitution self-check: 2G through the library equals the model's
-            st, two = call(s.multiply, (g[0][0], g[1][0]), 2)
-            exp2 = ctx.E.add(g, g)
-            if st != "ok" or tuple(two) != ((0, 0) if exp2 is None else (exp2[0][0], exp2[1][0])):
+            if not mon.substitution_effective(s, ctx):
                 rec.unavailable.append("W4: rebinding secp256k1 constants had no effect (p=%d A=%d B=%d)" % (p, A_, B_))
+                rec.waive("W4:exhaustive", "the module does not follow its constants when they are rebound")
                 continue
             cnt = 0
             for v in (27, 28, 26, 29):
